@@ -64,6 +64,8 @@ def gen_cases(rng, tier, drift):
         ns = rng.randint(1, 3)
         cases.append(dict(kind="weighted", lens=[rng.randint(1, 6) for _ in range(ns)], crit=rng.choice(["CYCLE_UNTIL_ALL_DATASETS_EXHAUSTED", "ALL_DATASETS_EXHAUSTED", "FIRST_DATASET_EXHAUSTED", "CYCLE_FOREVER"]),
                           seed=rng.randint(0, 50), k=rng.randint(0, 8), wseed=rng.randint(0, 10**6), pf=rng.random() < 0.4))
+        if cases[-1]["crit"] == "CYCLE_FOREVER" and rng.random() < 0.6:
+            cases[-1]["long"] = True      # the resumed sampler runs past the 1000-draw boundary of its choice stream
     return cases
 
 
@@ -164,14 +166,14 @@ def run_impl(c):
         l2.load_state_dict(sd)
         i2 = iter(l2)
         ep = []
-        for j in range(30):
+        for j in range(1100 if c.get("long") else 30):
             try:
                 ep.append(next(i2))
             except StopIteration:
                 break
-            if j % 3 == 1:
+            if j % 3 == 1 and j < 60:
                 l2.state_dict()          # the RESUMED loader computes states too: they must not be written into the loaded dict
-        cont.append(ep)
+        cont.append(ep[:40])
         if not deep_eq(pickle.loads(pk), sd):
             fails.append(f"state dict changed by loading it and iterating: born {pickle.loads(pk)}, now {sd}")
     if cont[0] != cont[1]:
